@@ -1,8 +1,16 @@
 from vfw import Unit, Ob
 UNITS = [Unit('num_hook', 'wrappers/num.cpp', cuts={'CUT_MF_F': r'10make_floatIfiE', 'CUT_MF_D': r'10make_floatIdiE'}, memhook=True)]
+DOC = ['ARENA_N=6', 'ARENA_CHUNK=64', 'ARDUINOJSON_POOL_CAPACITY=4', 'ARDUINOJSON_INITIAL_POOL_COUNT=2']
+UNITS += [Unit('doc_hook', 'wrappers/doc.cpp', defs=DOC, cuts={'CUT_MF_F': r'10make_floatIfiE', 'CUT_MF_D': r'10make_floatIdiE', 'CUT_DECOMP': r'14decomposeFloatEda'}, memhook=True, memhook_allow=r'^_ZL5arena$')]
 OBS = [Ob(['C20'], 'frame_kernels', 'num_hook', 'harness/frame.c', 'h_frame_kernels', defs=['UNIT_H="num_hook.h"'], unwind=24, cap=400, hunwind=12, validate=2,
           desc='store hook on every store of the translated text-formatter / number / UTF / escape / compare / error-string kernels: no store targets a mutable global object',
           bound='all symbolic inputs of the listed kernels (64-bit integers, 5-byte strings, code units, bytes); loops unwound 24')]
+KH = dict(fs=4096, cap=400, hunwind=44, objbits=12, validate=2)
+OBS += [
+ Ob(['C20'], 'frame_doc_build_serialize', 'doc_hook', 'harness/doc_ser.c', 'h_ser_arr', defs=['UNIT_H="doc_hook.h"'], unwind=14, desc='store hook while a document [i,"s",u] is built and serialized: every store of the library lands in the document memory (arena), the caller buffer or the stack, never in a global', bound='as ser_arr', **KH),
+ Ob(['C20'], 'frame_doc_history', 'doc_hook', 'harness/doc_hist.c', 'h_add_remove_add', defs=['UNIT_H="doc_hook.h"', 'R=1'], unwind=8, desc='store hook during add/add/add/remove/add on a document', bound='as hist_add_remove_add_r1', **KH),
+ Ob(['C20'], 'frame_doc_scalar64', 'doc_hook', 'harness/doc_one.c', 'h_one_i64', defs=['UNIT_H="doc_hook.h"'], unwind=6, desc='store hook during doc.set(int64) and all is<T>/as<T> reads', bound='all int64 values', **KH),
+]
 META = {'C20': dict(level='model_checking', assumptions=['malloc/free of the default allocator are thread-safe (outside the library)',
         'reduction: operations that neither write outside {own document, caller buffers, stack} nor read mutable memory outside them commute, so any interleaving equals a sequential run'],
         not_claimed=['real interleavings: CBMC 6.11 aborts with "pointer handling for concurrency is unsound" on any kernel that dereferences a pointer to a global table (escape table, error strings), so two-thread harnesses are not applicable; the frame property is decided instead',
